@@ -8,28 +8,49 @@ from props import calib_common as cc
 from props import calib_family as cf
 
 
+FLAVOURS = [None, "bare", "interrupt", "sysexit", "stopiter", "rich", "multiline"]
+
+
 def gen_cases(chk):
     rng = chk.rng
     quick = chk.tier == "quick"
     cases = []
     max_b = 4 if quick else 6
-    lineups = 6 if quick else 14
+    lineups = 10 if quick else 30
     for li in range(lineups):
         rl = li % 2 == 1
-        base = cc.gen_case(rng, 0, max_ops=1, max_samplers=3, bs_max=2, e_max=2, rl=rl, prec_prob=10**9)
-        base["cfg"]["prec"] = None
+        with_prec = li % 3 == 2          # round 4: early stopping configured (it may end a session before the fault index is reached)
+        base = cc.gen_case(rng, 0, max_ops=1, max_samplers=3, bs_max=2 if quick else 3, e_max=2 if quick else 3, rl=rl,
+                           prec_prob=2 if with_prec else 10**9)
+        if not with_prec:
+            base["cfg"]["prec"] = None
         base["cfg"]["saving"] = (li % 4 >= 2) and not rl
         if rl:
             base["palette"] = [abs(x) + 0.125 for x in base["palette"]]
         nb = rng.randint(2, max_b)
-        base["ops"] = [["calibrate", nb], ["calibrate", 2 if rl else 1]]     # RL: the retry needs a bootstrap batch and an agent-chosen one
+        retry = 2 if rl else 1                # RL: the retry needs a bootstrap batch and an agent-chosen one
+        # round 4: what happens between the failing session and the retry, and how many sessions the fault may land in
+        shape = (li // 2) % 5
+        window = 1
+        if shape == 1:
+            a = rng.randint(1, nb - 1)
+            base["ops"] = [["calibrate", a], ["calibrate", nb - a], ["calibrate", retry]]       # several sessions before the fault
+            window = 2
+        elif shape == 2 or (shape in (3, 4) and rl):
+            base["ops"] = [["calibrate", nb], ["calibrate", 0], ["calibrate", retry]]           # an empty session after the failing one
+        elif shape == 3:
+            base["ops"] = [["calibrate", nb], ["set_samplers", cc.gen_samplers(rng, rng.randint(1, 3), 10, 2)], ["calibrate", retry + 1]]
+        elif shape == 4:
+            base["cfg"]["saving"] = True
+            base["ops"] = [["calibrate", nb], ["restore"], ["calibrate", retry]]                # back to the last checkpoint, then on
+        else:
+            base["ops"] = [["calibrate", nb], ["calibrate", retry]]
         # run once fault-free to learn how many invocations there are
         probe = cc.run_case(dict(base, idx=0))
-        v = probe["views"][0]
+        v = probe["views"][window - 1]
         n_model = v["nsampled"] * base["cfg"]["E"]
         n_loss = v["nsampled"]
         plans = [["model", k] for k in range(n_model)] + [["loss", k] for k in range(n_loss)]
-        specs = base["rl"]["samplers"] if rl else base["samplers"]
         for uid, calls, _ in v["samplers"]:
             plans += [["sampler", uid, k] for k in range(calls)]
         if quick and len(plans) > 28:
@@ -40,10 +61,14 @@ def gen_cases(chk):
         for j, f in enumerate(plans):
             c = copy.deepcopy(base)
             c["idx"], c["fault"] = len(cases), f
-            if j % 3 == 2:
-                c["fault_flavour"] = "interrupt"      # the same fault raised as a KeyboardInterrupt (a BaseException)
-            elif j % 3 == 1:
-                c["fault_flavour"] = "bare"           # an exception without a message
+            fl = FLAVOURS[(j + li) % len(FLAVOURS)]
+            if fl == "stopiter" and f[0] == "model":
+                # joblib runs the model inside a generator: Python (PEP 479) turns a StopIteration escaping it into a RuntimeError
+                # whose __cause__ is the original - not the calibrator's doing; the model gets the several-argument exception
+                fl = "rich"
+            if fl is not None:
+                c["fault_flavour"] = fl
+            if fl in ("bare", "rich", "multiline"):
                 c["cfg"]["verbose"] = True
             cases.append(c)
     return cases
@@ -109,8 +134,308 @@ def genuine_fault_runs(chk, stats):
     return n
 
 
+# ====================================================================================================================
+# Round 4 (generator sweep): sequences of failing and clean sessions on the real Calibrator with real samplers, schedulers
+# (round-robin, RL with a reward-driven agent) and a saving folder, instrumented by C02's audit (props/c02.py): several faults in
+# a row, every exception flavour raised as the very instance that must come out of calibrate(), components re-assigned between
+# the failure and the retry, a model answering with a wrong shape, faults under n_jobs > 1.  Direct oracle only (the Coq model
+# has a single fault plan; its theorems are about one failing session followed by any operations).
+# ====================================================================================================================
+class RichError(Exception):
+    def __init__(self, what, code, payload):
+        super().__init__(what, code, payload)
+        self.what = what
+
+    def __str__(self):
+        return f"{self.what}\n  second line ☠"
+
+
+class SilentError(Exception):
+    """its text cannot be produced (a reporting layer that formats the error must not replace it by another one)"""
+
+    def __str__(self):
+        raise TypeError("no text")
+
+
+def make_exception(flavour, what):
+    if flavour == "plain":
+        return RuntimeError(f"{what} failed")
+    if flavour == "bare":
+        return ValueError()
+    if flavour == "interrupt":
+        return KeyboardInterrupt()
+    if flavour == "sysexit":
+        return SystemExit(3)
+    if flavour == "stopiter":
+        return StopIteration(what)
+    if flavour == "rich":
+        return RichError(what, 3, {"x": None})
+    if flavour == "silent":
+        return SilentError(what)
+    if flavour == "genexit":
+        return GeneratorExit()
+    raise ValueError(flavour)
+
+
+DIRECT_FLAVOURS = ["plain", "bare", "interrupt", "sysexit", "stopiter", "rich", "silent", "genexit"]
+
+
+def gen_faulted_spec(rng, idx, quick):
+    from props import c02
+
+    rl = idx % 3 == 1
+    d, D, L = rng.choice([1, 2]), rng.choice([1, 2]), rng.choice([3, 5])
+    spec = {"family": "faulted", "d": d, "D": D, "L": L, "sim_length": rng.choice([None, None, 2, L + 2]), "E": rng.randint(1, 3),
+            "E_np": False, "sched": "rl" if rl else "rr", "model": rng.choice(["plain", "list", "f32"]), "loss": "sum",
+            "verbose": bool(rng.below(2)), "seed": rng.below(2 ** 31), "salt": rng.below(100), "kinds": [], "ops": [], "n_jobs": 1,
+            "saving": (not rl) and idx % 2 == 0, "calls": []}
+    nk = rng.randint(1, 3)
+    for j in range(nk):
+        kind = rng.choice(c02.PLAIN_KINDS + c02.HISTORY_KINDS)
+        bs = rng.randint(1, 3)
+        if kind in c02.HISTORY_KINDS and (j == 0 or rl):
+            if rl:
+                bs = 1
+            else:
+                kind = rng.choice(c02.PLAIN_KINDS)
+        if j == 0 and not rl:
+            bs = 3
+        spec["kinds"].append([kind, bs, False])
+    nfaults = rng.randint(1, 3)
+    for f in range(nfaults):
+        n = rng.randint(1, 3)
+        kind = rng.choice(["model", "loss", "sampler", "model", "loss", "badshape"])
+        rows = 2 * n                                   # an index beyond the session's invocations never fires (the call is clean)
+        j = 0 if rng.below(3) == 0 else rng.below(max(1, rows * (spec["E"] if kind in ("model", "badshape") else 1)))
+        if kind == "sampler":
+            j = rng.below(n)
+        flavour = DIRECT_FLAVOURS[(idx + f) % len(DIRECT_FLAVOURS)]
+        if flavour == "stopiter" and kind == "model":
+            flavour = "rich"
+        fix = rng.choice([None, None, "model", "loss", "samplers", "zero"])
+        if rl and fix == "samplers":
+            fix = "zero"
+        spec["calls"].append({"n": n, "fault": [kind, j, flavour, rng.below(nk)], "fix": fix})
+        if rng.below(2):
+            spec["calls"].append({"n": rng.randint(1, 2) + (1 if rl else 0), "fault": None, "fix": None})
+    spec["calls"].append({"n": 2, "fault": None, "fix": None})
+    return spec
+
+
+def run_faulted_spec(spec, twin=None):
+    """-> (fails, fired, final history as bytes).  `twin` = the final history of the same scenario without faults."""
+    import contextlib
+    import io
+    import shutil
+    import threading
+    import warnings
+
+    import numpy as np
+    from black_it.calibrator import Calibrator
+
+    from props import c02
+    from props import real_lineups as rl_
+
+    threads0 = set(threading.enumerate())
+    cc.G["hung"] = False
+    n_exp = spec["sim_length"] if spec["sim_length"] is not None else spec["L"]
+    audit = c02.Audit(spec["D"], n_exp, spec["model"])
+    folder = str(rl_.scratch(f"c11-direct-{spec['seed']}")) if spec.get("saving") else None
+    cal, samplers, loss = c02.build_audited(spec, audit, saving_folder=folder)
+    fails, fired, first_failure_checked = [], 0, False
+    faults_on = twin is not None
+    saved_model = cal.model            # the model in force when the folder was last written (its name is checked by restore)
+    try:
+        for ci, call in enumerate(spec["calls"]):
+            plan, expect_any = {}, False
+            f = call["fault"] if faults_on else None
+            if f is not None:
+                kind, j, flavour, pos = f
+                if kind == "badshape":
+                    plan[("badshape", j)] = True
+                    expect_any = True
+                elif kind == "sampler":           # the j-th sample() call of the session, whichever sampler is designated
+                    plan[("sample", j)] = lambda fl=flavour: make_exception(fl, "sampler")
+                else:
+                    plan[(kind, j)] = lambda fl=flavour, k=kind: make_exception(fl, k)
+            audit.begin_call(plan)
+            b0 = int(cal.current_batch_index)
+            err = ret = None
+            with contextlib.redirect_stdout(io.StringIO()), warnings.catch_warnings(), np.errstate(all="ignore"):
+                warnings.simplefilter("ignore")
+                try:
+                    if spec["sched"] == "rl":
+                        ret = cc.call_with_watchdog(lambda n=call["n"]: cal.calibrate(n), timeout=60.0)
+                    else:
+                        ret = cal.calibrate(call["n"])
+                except BaseException as e:  # noqa: BLE001
+                    err = e
+            did_fire = bool(audit.raised) or audit.badshape_fired
+            audit.end_call(err is not None)
+            where = f"call {ci} calibrate({call['n']}) with fault {f}"
+            if isinstance(err, TimeoutError) and cc.G.get("hung"):
+                fails.append(("reusable", f"{where}: calibrate() did not return (deadlock)"))
+                break
+            if did_fire:
+                fired += 1
+                if err is None:
+                    fails.append(("propagates", f"{where}: the exception raised by the {f[0]} did not come out of calibrate()"))
+                elif audit.raised and err is not audit.raised[0]:
+                    fails.append(("propagates", f"{where}: calibrate() raised {type(err).__name__} instead of the "
+                                                f"{type(audit.raised[0]).__name__} instance raised by the {f[0]}"))
+            elif err is not None:
+                fails.append(("reusable", f"{where}: no fault in this call, yet calibrate() raised {type(err).__name__}"))
+            stage = "after-fault:" if err is not None else ("reusable:" if fired else "")
+            for clause, detail in audit.verify(ret if err is None else None):
+                fails.append((stage + clause, f"{where}: {detail}"))
+            if err is None and int(cal.current_batch_index) != b0 + call["n"]:
+                fails.append(("reusable", f"{where}: {int(cal.current_batch_index) - b0} batches ran"))
+            left = [t.name for t in threading.enumerate() if t not in threads0 and t.is_alive() and t is not threading.main_thread()
+                    and not t.name.startswith(("QueueManager", "ExecutorManager", "QueueFeeder"))]
+            th = getattr(cal.scheduler, "_agent_thread", None)
+            if left or (th is not None and th.is_alive()) or getattr(cal.scheduler, "_stopped", True) is not True:
+                fails.append(("thread-left-running", f"{where}: threads {left} alive / session flag not reset after the call"))
+            if err is not None and not first_failure_checked and twin is not None:
+                first_failure_checked = True
+                mine = rl_.history(cal)
+                for key in ("params", "losses", "series", "bnums", "methods"):
+                    if twin[key][: len(mine[key])] != mine[key]:
+                        fails.append(("prefix-of-fault-free", f"{where}: {key} is not a prefix of the fault-free run"))
+            if int(cal.current_batch_index) > b0:
+                saved_model = cal.model
+            if folder is not None and int(cal.current_batch_index) > 0:
+                try:
+                    with contextlib.redirect_stdout(io.StringIO()):
+                        c2 = Calibrator.restore_from_checkpoint(folder, model=saved_model)
+                    if int(c2.current_batch_index) != int(cal.current_batch_index) or c2.params_samp.tobytes() != cal.params_samp.tobytes() \
+                            or c2.losses_samp.tobytes() != cal.losses_samp.tobytes():
+                        fails.append(("folder-last-complete-batch", f"{where}: the folder holds batch {int(c2.current_batch_index)}, live "
+                                                                    f"{int(cal.current_batch_index)}"))
+                except Exception as e:  # noqa: BLE001
+                    fails.append(("folder-last-complete-batch", f"{where}: the folder cannot be restored: {type(e).__name__} {str(e)[:200]}"))
+            if fails:
+                break
+            # what the user does about the failure before trying again
+            fix = call.get("fix") if (faults_on and err is not None) else None
+            b = int(cal.current_batch_index)
+            if fix == "model":
+                cal.model = c02.audited_model_b
+            elif fix == "loss":
+                loss = c02.AuditLoss("sum", spec["D"], spec["salt"] + 1)
+                cal.loss_function = loss
+                audit.loss_epochs.append((b, loss))
+            elif fix == "samplers":
+                samplers = [c02.make_audited_sampler(k, bs, 31 + i) for i, (k, bs, _) in enumerate(spec["kinds"])]
+                cal.set_samplers(samplers)
+            elif fix == "zero":
+                audit.begin_call({})
+                with contextlib.redirect_stdout(io.StringIO()):
+                    r0 = cc.call_with_watchdog(lambda: cal.calibrate(0), timeout=60.0) if spec["sched"] == "rl" else cal.calibrate(0)
+                audit.end_call(False)
+                for clause, detail in audit.verify(r0):
+                    fails.append(("reusable:" + clause, f"{where} then calibrate(0): {detail}"))
+        final = rl_.history(cal)
+    finally:
+        cc.release_threads(cal)
+        c02._A = None  # noqa: SLF001
+        if folder is not None:
+            shutil.rmtree(folder, ignore_errors=True)
+    return fails, fired, final
+
+
+def faulted_audit_runs(chk, stats, only=None):
+    rng = chk.rng
+    quick = chk.tier == "quick"
+    specs = [only] if only is not None else [gen_faulted_spec(rng, i, quick) for i in range(48 if quick else 480)]
+    n = 0
+    deadlocked = False
+    for spec in specs:
+        if deadlocked and spec["sched"] == "rl" and only is None:
+            stats["direct:rl scenarios skipped after a deadlock was reported"] += 1      # each would cost a watchdog time-out
+            continue
+        _, _, twin = run_faulted_spec(spec, twin=None)
+        fails, fired, _ = run_faulted_spec(spec, twin=twin)
+        deadlocked = deadlocked or any("did not return" in d for _, d in fails)
+        n += 1
+        stats[f"direct:{spec['sched']}"] += 1
+        stats["direct:faults fired"] += fired
+        stats[f"direct:fired {min(fired, 3)} faults in a row"] += 1
+        seen = set()
+        for clause, detail in fails:
+            if clause in seen:
+                continue
+            seen.add(clause)
+            chk.violation({"kind": "oracle", "clause": clause, "with": "real-components"},
+                          {"failed": f"oracle:{clause}", "detail": detail, "case": {"faulted": spec}})
+    return n
+
+
+def remote_faulty_model(theta, N, seed):  # noqa: N803
+    """runs in a worker process (n_jobs > 1): refuses half of the parameter space"""
+    import numpy as np
+
+    if float(theta[0]) >= 3.5:
+        raise ArithmeticError(f"the model diverges at {float(theta[0])}")
+    return np.random.default_rng(seed).random((N, 1)) + float(theta[0])
+
+
+def njobs_fault_runs(chk, stats):
+    """A model failing in a worker process of joblib (n_jobs = 2): the same guarantees."""
+    import contextlib
+    import io
+
+    import numpy as np
+    from black_it.calibrator import Calibrator
+    from black_it.loss_functions.minkowski import MinkowskiLoss
+
+    from props import real_lineups as rl_
+
+    rng = chk.rng
+    n = 0
+    for li in range(1 if chk.tier == "quick" else 4):
+        kinds = [("uniform", 2), ("halton", 3)]
+        samplers = [rl_.make_sampler(k, bs, 3 + li) for k, bs in kinds]
+        with contextlib.redirect_stdout(io.StringIO()):
+            cal = Calibrator(loss_function=MinkowskiLoss(), real_data=np.zeros((4, 1)), model=remote_faulty_model,
+                             parameters_bounds=[[0.0], [4.0]], parameters_precision=[0.0625], ensemble_size=1 + li % 2, samplers=samplers,
+                             verbose=False, random_state=rng.below(2 ** 31), n_jobs=2)
+        for b in range(8):
+            before = rl_.history(cal)
+            raised = None
+            with contextlib.redirect_stdout(io.StringIO()):
+                try:
+                    cal.calibrate(1)
+                except Exception as e:  # noqa: BLE001
+                    raised = e
+            n += 1
+            after = rl_.history(cal)
+            if raised is None:
+                stats["njobs:batch completed"] += 1
+                ok = int(cal.current_batch_index) == before["shape"][3] + 1 and all(after[k][: len(before[k])] == before[k]
+                                                                                     for k in ("params", "losses", "series", "bnums", "methods"))
+                bad_rows = [i for i, p in enumerate(cal.params_samp) if float(p[0]) >= 3.5]
+                if not ok or bad_rows:
+                    chk.violation({"kind": "oracle", "clause": "reusable", "with": "n_jobs"},
+                                  {"failed": "oracle:reusable", "detail": f"n_jobs=2, batch {b}: history not extended by one batch, or rows "
+                                   f"{bad_rows} recorded for parameters on which the model raised", "case": {"njobs": li}})
+                    break
+                continue
+            stats[f"njobs:raised:{type(raised).__name__}"] += 1
+            changed = rl_.diff(before, after)
+            if changed or not isinstance(raised, ArithmeticError):
+                chk.violation({"kind": "oracle", "clause": "genuine-fault-history-changed" if changed else "propagates", "with": "n_jobs"},
+                              {"failed": "oracle:fault", "detail": f"n_jobs=2, batch {b}: the model raised ArithmeticError in a worker; out of "
+                               f"calibrate() came {type(raised).__name__}; changed by the failed call: {changed}", "case": {"njobs": li}})
+                break
+    return n
+
+
 def run(chk, replay=None):
+    import threading
+
     chk.proof_gate()
+    # threads of the harness itself (vcheck's wall-limit timer) are not "started by the calibration"
+    cc.G["ignore_threads"] = set(threading.enumerate())
     cases = [json.loads(open(replay).read())["case"]] if replay else gen_cases(chk)
     twins = {}
 
@@ -124,18 +449,24 @@ def run(chk, replay=None):
         o["fired"] = fired
         return fails
 
-    if replay and "genuine" in cases[0]:
+    only = cases[0].get("faulted") if replay else None
+    if replay and ("genuine" in cases[0] or "faulted" in cases[0] or "njobs" in cases[0]):
         cases = []
     obs, bad, stats, keys, nontriv = cf.run_traces(chk, cases, oracle, lambda c, o: o.get("fired") or any(v["exn"] in (1, 2, 3) for v in o["views"]), label="C11")
-    n_gen = genuine_fault_runs(chk, stats)
+    n_gen = genuine_fault_runs(chk, stats) if only is None else 0
+    n_direct = faulted_audit_runs(chk, stats, only=only) if (only is not None or not replay) else 0
+    n_direct += njobs_fault_runs(chk, stats) if not replay else 0
     cov = {
-        "evaluations": len(cases) + n_gen, "distinct": len(keys), "distinct_nontrivial": len(nontriv),
+        "evaluations": len(cases) + n_gen + n_direct, "direct_fault_sequences": n_direct, "distinct": len(keys), "distinct_nontrivial": len(nontriv),
         "genuine_fault_batches": n_gen,
         "rule": "for each line-up (round-robin and RL with a scripted agent, with and without a saving folder, 2-4 batches quick / 2-6 "
                 "thorough) an exception is injected at every invocation index of the model, the loss and each sampler (sub-sampled to "
                 "28 per line-up in the quick tier); the run is followed by calibrate(1); compared with the fault-free twin; "
                 "non-trivial = the fault fired; plus real built-in samplers that raise by themselves on histories with NaN / out-of-float32 "
-                "losses or too few points (history bytes before = after the failed call)",
+                "losses or too few points (history bytes before = after the failed call); round 4: seven exception flavours, early stopping "
+                "configured, several sessions / an empty session / set_samplers / a restore between failure and retry in the token traces; "
+                "direct runs on real components with 1-3 failing sessions in a row (identity of the raised instance, C02's audit of the "
+                "recorded rows, prefix of the fault-free twin, threads, folder), a model failing in a joblib worker (n_jobs=2)",
         "samples": cf.sample_cases(cases, obs),
         "traces_validated_against_impl": len(cases) - len(bad), "model_impl_disagreements": len(bad),
         "distribution": dict(sorted(stats.items())),
